@@ -2,7 +2,8 @@
 // CSR / BCSR / dense leaves at Q from a prefix tree expression and calls their apply members with the matching
 // TupleVector / PowerVector operands.
 //
-//   meta <cppType> OP <tree> alpha L(x) L(y) alias        OP in {apply, applyT, axpy, axpyT}
+//   meta <cppType> OP <tree> alpha L(x) L(y) alias        OP in {apply, applyT, axpy, axpyT} (Tuple/PowerVector operands)
+//                                                          or {applyF, applyTF, axpyF, axpyTF}: the flat DenseVector overloads
 //   <tree> ::= R <tree> <tree>        first block left of the rest   (PowerRowMatrix / TupleMatrixRow recursion)
 //            | C <tree> <tree>        first block above the rest     (PowerColMatrix / TupleMatrix recursion)
 //            | D <tree> <tree>        block diagonal                 (PowerDiagMatrix recursion)
@@ -24,6 +25,7 @@
 #include <kernel/lafem/power_diag_matrix.hpp>
 #include <kernel/lafem/power_full_matrix.hpp>
 #include <kernel/lafem/tuple_matrix.hpp>
+#include <kernel/lafem/tuple_diag_matrix.hpp>
 #include <kernel/lafem/saddle_point_matrix.hpp>
 
 using namespace FEAT;
@@ -152,6 +154,16 @@ namespace
     }
   };
 
+  template<typename First_, typename... Rest_> struct Meta<TupleDiagMatrix<First_, Rest_...>>
+  {
+    static TupleDiagMatrix<First_, Rest_...> make(Cur& c)
+    {
+      if constexpr (sizeof...(Rest_) == 0) { TupleDiagMatrix<First_> m; m.first() = Meta<First_>::make(c); return m; }
+      else { expect(c, "D"); TupleDiagMatrix<First_, Rest_...> m; m.first() = Meta<First_>::make(c);
+             m.rest() = Meta<TupleDiagMatrix<Rest_...>>::make(c); return m; }
+    }
+  };
+
   template<typename A_, typename B_, typename D_> struct Meta<SaddlePointMatrix<A_, B_, D_>>
   {
     static SaddlePointMatrix<A_, B_, D_> make(Cur& c)
@@ -214,54 +226,58 @@ namespace
   }
 
   // ---------------------------------------------------------------- one case
-  // has_axpyT_ / has_applyT_: the 4- / 2-argument apply_transposed of the type compiles at all. It does not for
-  // TupleMatrix: TupleMatrix<FirstRow_>::apply_transposed(r, x, y, alpha) calls first().apply(...) (tuple_matrix.hpp:1330),
-  // and the 2-argument form of a TupleMatrix with >= 2 rows needs that function for its last row (finding F4).
-  template<typename Mat_, bool has_axpyT_ = true, bool has_applyT_ = true>
-  void run(Cur& c, std::ostream& o, const std::string& op)
+  // has_flat_: the type also has the overloads taking plain DenseVector operands (all leaves use DenseVector)
+  template<typename Mat_, bool has_flat_ = false>
+  void run(Cur& c, std::ostream& o, const std::string& op_in)
   {
     Mat_ a = Meta<Mat_>::make(c);
     Q alpha = Q::parse(c.str()); QV xs = qlist(c), ys = qlist(c); bool alias = (c.idx() != 0);
     const Q sentinel(777);
-    if(op == "apply" || op == "axpy")
+    std::string op = op_in;
+    const bool flat = (op.size() > 1 && op.back() == 'F');
+    if(flat) op.pop_back();
+    const bool tr = (op == "applyT" || op == "axpyT");
+    const bool ax = (op == "axpy" || op == "axpyT");
+    if(!(tr || ax || op == "apply")) { o << "BAD-OP"; return; }
+    // generic driver over the vector types: mkr() / mkx() create compatible (sized) vectors
+    auto drive = [&](auto trtag, auto mkr, auto mkx)
     {
-      auto x = a.create_vector_r(); fill_from(x, xs, "x");
-      auto r = a.create_vector_l();
-      if(op == "apply") { Vec<decltype(r)>::fillc(r, sentinel); a.apply(r, x); }
-      else if(alias) { fill_from(r, ys, "y"); a.apply(r, x, r, alpha); }
+      constexpr bool TR = decltype(trtag)::value;
+      auto x = mkx(); fill_from(x, xs, "x");
+      auto r = mkr();
+      typedef decltype(r) RV; typedef decltype(x) XV;
+      if(!ax)
+      {
+        Vec<RV>::fillc(r, sentinel);
+        if constexpr (TR) a.apply_transposed(r, x); else a.apply(r, x);
+      }
+      else if(alias)
+      {
+        fill_from(r, ys, "y");
+        if constexpr (TR) a.apply_transposed(r, x, r, alpha); else a.apply(r, x, r, alpha);
+      }
       else
       {
-        auto y = a.create_vector_l(); fill_from(y, ys, "y"); Vec<decltype(r)>::fillc(r, sentinel);
-        a.apply(r, x, y, alpha);
-        QV yf; Vec<decltype(y)>::flat(y, yf);
-        if(!same(yf, ys)) { QV rf; Vec<decltype(r)>::flat(r, rf); show(o, rf, false); return; }
+        auto y = mkr(); fill_from(y, ys, "y"); Vec<RV>::fillc(r, sentinel);
+        if constexpr (TR) a.apply_transposed(r, x, y, alpha); else a.apply(r, x, y, alpha);
+        QV yf; Vec<RV>::flat(y, yf);
+        if(!same(yf, ys)) { QV rf; Vec<RV>::flat(r, rf); show(o, rf, false); return; }
       }
-      QV rf, xf; Vec<decltype(r)>::flat(r, rf); Vec<decltype(x)>::flat(x, xf);
+      QV rf, xf; Vec<RV>::flat(r, rf); Vec<XV>::flat(x, xf);
       show(o, rf, same(xf, xs));
-    }
-    else if(op == "applyT" || op == "axpyT")
+    };
+    if(!flat)
     {
-      auto x = a.create_vector_l(); fill_from(x, xs, "x");
-      auto r = a.create_vector_r();
-      if(op == "applyT")
-      {
-        if constexpr (has_applyT_) { Vec<decltype(r)>::fillc(r, sentinel); a.apply_transposed(r, x); }
-        else { o << "NOT-OFFERED"; return; }
-      }
-      else if constexpr (has_axpyT_)
-      {
-        if(alias) { fill_from(r, ys, "y"); a.apply_transposed(r, x, r, alpha); }
-        else
-        {
-          auto y = a.create_vector_r(); fill_from(y, ys, "y"); Vec<decltype(r)>::fillc(r, sentinel);
-          a.apply_transposed(r, x, y, alpha);
-          QV yf; Vec<decltype(y)>::flat(y, yf);
-          if(!same(yf, ys)) { QV rf; Vec<decltype(r)>::flat(r, rf); show(o, rf, false); return; }
-        }
-      }
-      else { o << "NOT-OFFERED"; return; }
-      QV rf, xf; Vec<decltype(r)>::flat(r, rf); Vec<decltype(x)>::flat(x, xf);
-      show(o, rf, same(xf, xs));
+      if(tr) drive(std::true_type(), [&]() { return a.create_vector_r(); }, [&]() { return a.create_vector_l(); });
+      else drive(std::false_type(), [&]() { return a.create_vector_l(); }, [&]() { return a.create_vector_r(); });
+    }
+    else if constexpr (has_flat_)
+    {
+      // pod sizes from the compatible Tuple/Power vectors
+      QV pl, pr; { auto vl = a.create_vector_l(); Vec<decltype(vl)>::flat(vl, pl); auto vr = a.create_vector_r(); Vec<decltype(vr)>::flat(vr, pr); }
+      const Index nl = Index(pl.size()), nrr = Index(pr.size());
+      if(tr) drive(std::true_type(), [&]() { return DenseVector<Q, Index>(nrr); }, [&]() { return DenseVector<Q, Index>(nl); });
+      else drive(std::false_type(), [&]() { return DenseVector<Q, Index>(nl); }, [&]() { return DenseVector<Q, Index>(nrr); });
     }
     else
       o << "BAD-OP";
@@ -275,18 +291,22 @@ void handle_meta(Cur& c, std::ostream& o)
   typedef PowerRowMatrix<Csr, 2> Row2;
   typedef PowerColMatrix<Csr, 2> Col2;
   typedef PowerDiagMatrix<Csr, 2> Diag2;
-  if(ty == "prow3_csr") run<PowerRowMatrix<Csr, 3>>(c, o, op);
-  else if(ty == "pcol3_csr") run<PowerColMatrix<Csr, 3>>(c, o, op);
-  else if(ty == "pdiag2_csr") run<Diag2>(c, o, op);
+  typedef SaddlePointMatrix<Csr, Csr, Csr> Sad;
+  if(ty == "prow3_csr") run<PowerRowMatrix<Csr, 3>, true>(c, o, op);
+  else if(ty == "pcol3_csr") run<PowerColMatrix<Csr, 3>, true>(c, o, op);
+  else if(ty == "pdiag2_csr") run<Diag2, true>(c, o, op);
   else if(ty == "pdiag2_bcsr23") run<PowerDiagMatrix<Bcsr<2, 3>, 2>>(c, o, op);
-  else if(ty == "pfull_w3h2_csr") run<PowerFullMatrix<Csr, 3, 2>>(c, o, op);
+  else if(ty == "pfull_w3h2_csr") run<PowerFullMatrix<Csr, 3, 2>, true>(c, o, op);
   else if(ty == "pfull22_bcsr22") run<PowerFullMatrix<Bcsr<2, 2>, 2, 2>>(c, o, op);
-  else if(ty == "saddle_csr") run<SaddlePointMatrix<Csr, Csr, Csr>>(c, o, op);
-  else if(ty == "saddle_stokes") run<SaddlePointMatrix<Diag2, Col2, Row2>>(c, o, op);
+  else if(ty == "saddle_csr") run<Sad, true>(c, o, op);
+  else if(ty == "saddle_stokes") run<SaddlePointMatrix<Diag2, Col2, Row2>, true>(c, o, op);
   else if(ty == "saddle_bcsr") run<SaddlePointMatrix<Bcsr<2, 2>, Bcsr<2, 1>, Bcsr<1, 2>>>(c, o, op);
-  else if(ty == "tuple22_csr_dense") run<TupleMatrix<TupleMatrixRow<Csr, Dns>, TupleMatrixRow<Dns, Csr>>, false, false>(c, o, op);
-  else if(ty == "tuple22_bcsr") run<TupleMatrix<TupleMatrixRow<Bcsr<2, 2>, Bcsr<2, 3>>, TupleMatrixRow<Bcsr<3, 2>, Bcsr<3, 3>>>, false, false>(c, o, op);
-  else if(ty == "tuple12_saddle") run<TupleMatrix<TupleMatrixRow<SaddlePointMatrix<Csr, Csr, Csr>, SaddlePointMatrix<Csr, Csr, Csr>>>, false>(c, o, op);
-  else if(ty == "pdiag2_pfull22") run<PowerDiagMatrix<PowerFullMatrix<Csr, 2, 2>, 2>>(c, o, op);
+  else if(ty == "tuple22_csr_dense") run<TupleMatrix<TupleMatrixRow<Csr, Dns>, TupleMatrixRow<Dns, Csr>>>(c, o, op);
+  else if(ty == "tuple22_bcsr") run<TupleMatrix<TupleMatrixRow<Bcsr<2, 2>, Bcsr<2, 3>>, TupleMatrixRow<Bcsr<3, 2>, Bcsr<3, 3>>>>(c, o, op);
+  else if(ty == "tuple32_csr") run<TupleMatrix<TupleMatrixRow<Csr, Csr>, TupleMatrixRow<Csr, Csr>, TupleMatrixRow<Csr, Csr>>>(c, o, op);
+  else if(ty == "tuple12_saddle") run<TupleMatrix<TupleMatrixRow<Sad, Sad>>>(c, o, op);
+  else if(ty == "pdiag2_pfull22") run<PowerDiagMatrix<PowerFullMatrix<Csr, 2, 2>, 2>, true>(c, o, op);
+  else if(ty == "tdiag_csr_dense") run<TupleDiagMatrix<Csr, Dns>>(c, o, op);
+  else if(ty == "tdiag_csr_saddle_csr") run<TupleDiagMatrix<Csr, Sad, Csr>>(c, o, op);
   else o << "BAD-OP";
 }
